@@ -33,6 +33,9 @@ func Exec(c Case) *ev.Result {
 			break
 		}
 	}
+	if r.Fail == "" {
+		w.drainReaders("at the end of the history", true)
+	}
 	finish(w, r)
 	return r
 }
